@@ -828,21 +828,27 @@ func (e *ex) do(op string) core.Result {
 			return core.Result{Impl: "bad-op"}
 		}
 		core.Count("sendgone:" + f[1] + ":after-" + other.closed)
-		// several writes with pauses: the first write of a proxy towards a closed peer may still succeed
-		// (the kernel answers it with RST), the next one fails; two proxies on the via route
-		off := who.sent.n
-		for i := 0; i < 8; i++ {
+		// keep writing, with pauses, until our own write fails: a proxy's first write towards a closed
+		// peer may still succeed (the kernel answers it with RST), the next one fails, the copy ends, the
+		// tunnel is released and our connection closed - once per proxy on the route. No fixed number
+		// of writes: on a loaded machine it just takes longer. Give up after the bound.
+		off, t0, sawErr := who.sent.n, time.Now(), false
+		for time.Since(t0) < bound {
 			b := make([]byte, n/8)
 			for j := range b {
 				b[j] = pat(who.seed, off+j)
 			}
-			who.conn.SetWriteDeadline(time.Now().Add(5 * time.Second))
+			who.conn.SetWriteDeadline(time.Now().Add(bound))
 			if _, err := who.conn.Write(b); err != nil {
-				break // the proxy has closed our connection: the tunnel is gone, as it should be
+				sawErr = true // the proxy has closed our connection: the tunnel is gone, as it should be
+				break
 			}
 			who.sent.add(b)
 			off += len(b)
-			time.Sleep(30 * time.Millisecond)
+			time.Sleep(4 * time.Millisecond)
+		}
+		if !sawErr {
+			core.Count("sendgone:writes-never-failed")
 		}
 		who.wroteGone = true
 		return core.Result{Impl: "gone"}
@@ -1054,35 +1060,145 @@ func genSize(r *core.Rand, tier string) int {
 	}
 }
 
-func genCase(r *core.Rand, tier string, route, lst, tgt string, early, banner int) []string {
-	ops := []string{fmt.Sprintf("open %s %s %s %d %d %d %d", route, lst, tgt, early, banner, r.Intn(256), r.Intn(256))}
-	for i, n := 0, r.Range(1, 4); i < n; i++ {
-		nC, nT := genSize(r, tier), genSize(r, tier)
+// genBig: a size that exceeds every buffer on the path (socket buffers, the proxy's 32 KiB), so that
+// most of it is still on its way when the writer's Write returns.
+func genBig(r *core.Rand, tier string) int {
+	switch r.Intn(4) {
+	case 0:
+		return r.Range(200000, 600000)
+	case 1:
+		return 1 << 20
+	case 2:
+		if tier == "thorough" && r.Chance(1, 3) {
+			return 4 << 20
+		}
+		return 2 << 20
+	default:
+		return r.Range(600000, 3<<20)
+	}
+}
+
+// traffic is one send/push op; `from` restricts the direction ("c", "t" or "" for both).
+func traffic(r *core.Rand, tier, from string, push, big bool) string {
+	nC, nT := genSize(r, tier), genSize(r, tier)
+	if big {
+		if r.Bool() || from == "c" {
+			nC = genBig(r, tier)
+		}
+		if nC < 200000 || from == "t" {
+			nT = genBig(r, tier)
+		}
+	}
+	switch {
+	case from == "c":
+		nT = 0
+	case from == "t":
+		nC = 0
+	default:
 		switch r.Intn(5) {
 		case 0:
 			nC = 0
 		case 1:
 			nT = 0
 		}
-		ops = append(ops, fmt.Sprintf("send %d %d %d", nC, nT, r.Intn(1<<30)))
+	}
+	op := "send"
+	if push {
+		op = "push"
+	}
+	return fmt.Sprintf("%s %d %d %d", op, nC, nT, r.Intn(1<<30))
+}
+
+// genCase: one tunnel. Schedule classes (all combined freely):
+//   - concurrent traffic both ways with random chunking/pauses, eager or slow readers on either end;
+//   - either end finishes first, by CloseWrite, Close or an abortive close (RST), with or without
+//     bytes still in flight in either direction at that moment;
+//   - traffic in the remaining direction after a half-close, again possibly left in flight (up to
+//     MiBs, towards a slow reader) when the second end closes: the proxy's final close of both
+//     connections must not lose it;
+//   - an end that keeps writing towards a peer that is gone (the proxy's write fails).
+func genCase(r *core.Rand, tier string, route, lst, tgt string, early, banner int, class string) []string {
+	ops := []string{fmt.Sprintf("open %s %s %s %d %d %d %d", route, lst, tgt, early, banner, r.Intn(256), r.Intn(256))}
+	slow := map[string]bool{}
+	maybeSlow := func(p int) {
+		for _, w := range []string{"c", "t"} {
+			if !slow[w] && r.Chance(1, p) {
+				ops = append(ops, "rd "+w+" slow")
+				slow[w] = true
+			} else if slow[w] && r.Chance(1, 3) {
+				ops = append(ops, "rd "+w+" eager")
+				slow[w] = false
+			}
+		}
+	}
+	rare := 24 // how rarely another class pushes MiBs as well
+	if tier == "thorough" {
+		rare = 8
+	}
+	inflight := class == "inflight" // large amounts in flight at the closes, slow readers likely
+	abortive := class == "abort"
+	if inflight {
+		maybeSlow(3)
+	} else {
+		maybeSlow(8)
+	}
+	for i, n := 0, r.Range(0, 3); i < n; i++ {
+		ops = append(ops, traffic(r, tier, "", false, false))
 	}
 	first, second := "c", "t"
 	if r.Bool() {
 		first, second = "t", "c"
 	}
 	how1 := r.Pick("half", "half", "full")
-	ops = append(ops, "close "+first+" "+how1)
-	if how1 == "half" && r.Chance(2, 3) {
-		// the other direction stays usable after a half-close
-		if second == "t" {
-			ops = append(ops, fmt.Sprintf("send 0 %d %d", genSize(r, tier), r.Intn(1<<30)))
-		} else {
-			ops = append(ops, fmt.Sprintf("send %d 0 %d", genSize(r, tier), r.Intn(1<<30)))
+	if abortive || r.Chance(1, 10) {
+		how1 = "abort"
+	}
+	if inflight {
+		maybeSlow(2)
+		if how1 == "full" && r.Bool() {
+			how1 = "half"
 		}
 	}
-	ops = append(ops, "close "+second+" "+r.Pick("half", "full"))
+	// bytes in flight when the first end closes (from it if it closes gracefully, towards it if it
+	// half-closes or aborts)
+	if r.Chance(1, 3) || inflight && r.Bool() || abortive && r.Bool() {
+		from := first
+		if how1 == "abort" || how1 == "half" && r.Bool() {
+			from = second
+		}
+		ops = append(ops, traffic(r, tier, from, true, inflight && r.Bool() || r.Chance(1, rare)))
+	}
+	ops = append(ops, "close "+first+" "+how1)
+	how2 := r.Pick("half", "full")
+	switch how1 {
+	case "half":
+		if inflight {
+			maybeSlow(2)
+		}
+		// the other direction stays usable after a half-close
+		if r.Chance(2, 3) || inflight {
+			if r.Chance(1, 3) {
+				ops = append(ops, traffic(r, tier, second, false, false))
+			}
+			push := inflight || r.Chance(1, 3)
+			ops = append(ops, traffic(r, tier, second, push, inflight || r.Chance(1, rare)))
+		}
+		if r.Chance(1, 12) {
+			how2 = "abort"
+		}
+	default:
+		// the first end is gone: the other one may keep writing for a while
+		if r.Chance(1, 2) {
+			ops = append(ops, fmt.Sprintf("sendgone %s %d %d", second, r.Pick2(r.Range(8, 200), r.Range(200, 70000)), r.Intn(1<<30)))
+			if r.Chance(1, 3) {
+				ops = append(ops, "end")
+				return ops
+			}
+		}
+	}
+	ops = append(ops, "close "+second+" "+how2)
 	if how1 == "half" && r.Bool() {
-		ops = append(ops, "close "+first+" full")
+		ops = append(ops, "close "+first+" "+r.Pick("full", "full", "abort"))
 	}
 	ops = append(ops, "end")
 	return ops
@@ -1107,15 +1223,30 @@ func (P) Gen(r *core.Rand, tier string, emit0 func(ops []string)) {
 					continue
 				}
 				banner := []int{0, 10, 700, 0, 3000}[(ei+li)%5]
-				emit(genCase(r.Fork(), tier, ro, l, r.Pick("tcp", "plain"), early, banner))
+				emit(genCase(r.Fork(), tier, ro, l, r.Pick("tcp", "plain"), early, banner, ""))
 			}
 		}
 	}
-	n := 220
-	if tier == "thorough" {
-		n = 2500
+	// the whole matrix route x listener kind x dial kind, once per schedule class in thorough; in quick
+	// the abortive class on the whole matrix and the in-flight class (MiBs, ~0.3 s each) on a diagonal
+	tgts := []string{"tcp", "plain"}
+	k, diag := 0, r.Intn(5)
+	for _, ro := range routes {
+		for _, l := range lsts {
+			for _, tg := range tgts {
+				k++
+				emit(genCase(r.Fork(), tier, ro, l, tg, earlySizes[k%len(earlySizes)], 0, "abort"))
+				if tier == "thorough" || k%5 == diag {
+					emit(genCase(r.Fork(), tier, ro, l, tg, 0, 0, "inflight"))
+				}
+			}
+		}
 	}
-	for i := 0; i < n; i++ {
+	n, nIn := 220, 4
+	if tier == "thorough" {
+		n, nIn = 2200, 250
+	}
+	for i := 0; i < n+nIn; i++ {
 		early := earlySizes[r.Intn(len(earlySizes))]
 		if r.Chance(1, 4) {
 			early = r.Range(0, 6000)
@@ -1124,6 +1255,12 @@ func (P) Gen(r *core.Rand, tier string, emit0 func(ops []string)) {
 		if r.Chance(1, 2) {
 			banner = r.Pick2(r.Range(1, 100), r.Range(100, 3500))
 		}
-		emit(genCase(r.Fork(), tier, routes[r.Intn(3)], lsts[r.Intn(3)], r.Pick("tcp", "plain"), early, banner))
+		class := ""
+		if i >= n {
+			class = "inflight"
+		} else if r.Chance(1, 8) {
+			class = "abort"
+		}
+		emit(genCase(r.Fork(), tier, routes[r.Intn(3)], lsts[r.Intn(3)], r.Pick("tcp", "plain"), early, banner, class))
 	}
 }
